@@ -199,6 +199,19 @@ def gen_bad_label_numbers(pid):
             p.set_sul(1, 'sequence_number', seq)
         p.write(1, valid=False, either=True)
         progs.append(p.build())
+    # text that is not ASCII in the fixed-width fields (set identifier of the label, header id): refused, or the fields keep their width
+    for i, (what, txt) in enumerate([('setid', 'BR\u00d8NN 7/11-A'), ('setid', 'BHT 85\u00b0C'), ('setid-label', 'caf\u00e9'), ('setid-set', '\u00e9t\u00e9'),
+                                     ('hdrid', 'HEADER \u00c5'), ('setid', 'X' * 59 + '\u00e9')]):
+        p = Prog(f'{pid}-nonascii-{i}', {'kind': 'badlabel', 'fringe': True, 'what': what})
+        simple_file(p, rng0, vrl=256, nchan=1, rows=2, fh_id=txt if what == 'hdrid' else None)
+        if what == 'setid':
+            p.steps[0].update({'setid': txt})
+        elif what == 'setid-label':
+            p.steps[0].update({'setid': txt, 'label': 'ready'})
+        elif what == 'setid-set':
+            p.set_sul(1, 'set_identifier', txt)
+        p.write(1, valid=False, either=True)
+        progs.append(p.build())
     return progs
 
 
@@ -328,6 +341,18 @@ def gen_C15(tier, seed):
         for fid, vrl in enumerate(vrls, start=1):
             simple_file(p, rng, fid=fid, vrl=vrl, nchan=2, rows=3, widths=[None, 9], extra_objects=True, fh_id='SAME-HEADER')
             p.write(fid, fname=f'f{fid}.dlis', out_chunk=max(vrl, 4096))
+        progs.append(p.build())
+    # rows wider than the output chunk (the smallest accepted one: the record length), input chunk size not given
+    for i, (vrl, width, dt) in enumerate([(64, 9, 'float64'), (64, 70, 'uint8'), (128, 40, 'float32'), (8192, 1100, 'float64'), (20, 4, 'float64')]):
+        p = Prog(f'C15-widerow-{i}', {'kind': 'size', 'variant': 'row wider than the output chunk'})
+        p.file(1, vrl=vrl)
+        lf = p.lf(1, fh_id='WIDE-ROWS')
+        p.origin(lf, name='O')
+        a = p.channel(lf, 'IMG', data=rand_array(rng, dt, 3, width))
+        b = p.channel(lf, 'IX', data=np.arange(3, dtype='float64'))
+        p.frame(lf, 'FR', [b, a])
+        p.write(1, out_chunk=vrl, fname='min-chunk.dlis')
+        p.write(1, out_chunk=vrl + 2, in_chunk=None, fname='next-chunk.dlis')
         progs.append(p.build())
     return progs
 
